@@ -300,8 +300,24 @@ def _blocks_calling(body, *names):
     return {c.bb for c in body.calls() if c.is_(*names)}
 
 
-def s4(prog, rep, P, tag="", parts=("mark_sendable", "receive_frame", "mark_received", "poll")):
+def s4(prog, rep, P, tag="", parts=("mark_sendable", "receive_frame", "mark_received", "poll", "send_blocking")):
     """Publish-after-write orderings."""
+    if "send_blocking" in parts:
+        b = prog.body("SendableFrame::send_blocking")
+        pr = Prov(b)
+        sends = [c for c in b.calls() if c.is_("FnOnce::call_once", "FnMut::call_mut", "Fn::call") and has_root(pr.of_operand(c.args[0]), "arg", 2)]
+        ms = b.calls_to("SendableFrame::mark_sent")
+        rl = b.calls_to("SendableFrame::release_sending_claim")
+        ok = len(sends) == 1 and bool(ms)
+        if ok:
+            # the bytes handed to the driver are this frame's
+            ok = has_root(pr.of_operand(sends[0].args[1]), "call", "SendableFrame::as_bytes")
+            ok = ok and all(b.dominates(sends[0].bb, m.bb) and m.bb != sends[0].bb for m in ms + rl)
+            # nothing reads the buffer after the state was handed on
+            for m in ms + rl:
+                after = b.reachable_strict(m.bb)
+                ok = ok and not any(c.bb in after for c in b.calls_to("SendableFrame::as_bytes"))
+        rep.ob(P + ".S4", "send_blocking:read-before-handover" + tag, ok, "the transmit side changes the slot state (->Sent / ->Sendable) only after the send closure has returned, and never reads the buffer afterwards: the receive side cannot be let in while the NIC driver still reads the bytes", loc=b.span)
     if "mark_sendable" in parts:
         b = prog.body("CreatedFrame::mark_sendable")
         hdr = _blocks_calling(b, "FrameBox::ecat_frame_header_mut")
